@@ -2,6 +2,9 @@ import MoPepGen.Driver.C10
 import MoPepGen.Driver.Pipe
 import MoPepGen.Driver.C12
 import MoPepGen.Driver.C20
+import MoPepGen.Driver.S
+import MoPepGen.Driver.C11
+import MoPepGen.Driver.C13
 
 /-- one line in (`<stream>\t<op>\t<args…>`), one line out -/
 def dispatch (line : String) : String :=
@@ -10,6 +13,9 @@ def dispatch (line : String) : String :=
   | "P" :: args => MoPepGen.Driver.Pipe.handle args
   | "C12" :: args => MoPepGen.Driver.C12.handle args
   | "C20" :: args => MoPepGen.Driver.C20.handle args
+  | "S" :: args => MoPepGen.Driver.S.handle args
+  | "C11" :: args => MoPepGen.Driver.C11.handle args
+  | "C13" :: args => MoPepGen.Driver.C13.handle args
   | _ => "bad-stream"
 
 partial def loop (h : IO.FS.Stream) (out : IO.FS.Stream) : IO Unit := do
